@@ -10,7 +10,7 @@ CONSTANTS MaxLines, Fences, Shapes
 VARIABLE z      \* [shape, fence, tag, ls] ; ls = sequence of line ids
 
 LineIds == {"tab", "nfd", "bsn", "quote", "uop", "alias", "assign", "end", "sep", "ticks", "ticks3", "ticks3nfd",
-            "lead", "trail", "word", "empty", "curly", "curly2", "curly3", "cmt", "tq", "ticks3ind"}
+            "lead", "trail", "word", "empty", "curly", "curly2", "curly3", "cmt", "tq", "ticks3ind", "linelike"}
 NeedsLongFence == {"ticks3", "ticks3nfd", "ticks3ind"}          \* a backtick run of 3: only content under a longer fence
 
 (* chunks of a content line (atoms Uxxxx are single characters) and the same text in {Uxxxx} encoding *)
@@ -27,6 +27,7 @@ LineChunks(id) ==
     [] id = "curly2" -> <<"render(Widget{props});">>
     [] id = "curly3" -> <<"see \"T1\" then Widget{props}">>
     [] id = "ticks3ind" -> <<"    ```sh">>
+    [] id = "linelike" -> <<"page", "U000C", "break ", "U2028", " nel", "U0085", "vt", "U000B", "x">>     \* line boundaries to str.splitlines(), ordinary bytes to a zone
     [] id = "cmt" -> <<"// not a comment">>       [] OTHER (* tq *) -> <<"\"\"\"x\"\"\"">>
 LineEnc(id) ==
   CASE id = "tab" -> "{U0009}x"                   [] id = "nfd" -> "cafe{U0301}"
@@ -41,6 +42,7 @@ LineEnc(id) ==
     [] id = "curly2" -> "render(Widget{U007B}props});"
     [] id = "curly3" -> "see \"T1\" then Widget{U007B}props}"
     [] id = "ticks3ind" -> "    ```sh"
+    [] id = "linelike" -> "page{U000C}break {U2028} nel{U0085}vt{U000B}x"
     [] id = "cmt" -> "// not a comment"           [] OTHER -> "\"\"\"x\"\"\""
 
 Ticks(n) == [i \in 1..n |-> "`"]
